@@ -198,6 +198,65 @@ pub fn check(case: &Case, p: &mut Probe) -> Check {
             }
         }
     }
+    // the same object after an edit: every quantity above was queried on `h`; a copy of it is now
+    // edited (one of clear_row, clear_col, set_row to empty, remove, toggle, chosen from the case) and
+    // queried again against the own oracles of the edited matrix
+    if !m.ones.is_empty() {
+        let mut h2 = h.clone();
+        let pick = m.ones[(m.ones.len() * 7 + r) % m.ones.len()];
+        let kind = (m.ones.len() + c) % 5;
+        let mut m2 = m.clone();
+        let what = match kind {
+            0 => {
+                h2.clear_row(pick.0);
+                m2.ones.retain(|e| e.0 != pick.0);
+                format!("clear_row({})", pick.0)
+            }
+            1 => {
+                h2.clear_col(pick.1);
+                m2.ones.retain(|e| e.1 != pick.1);
+                format!("clear_col({})", pick.1)
+            }
+            2 => {
+                h2.set_row(pick.0, std::iter::empty::<&usize>());
+                m2.ones.retain(|e| e.0 != pick.0);
+                format!("set_row({}, [])", pick.0)
+            }
+            3 => {
+                h2.remove(pick.0, pick.1);
+                m2.ones.retain(|e| *e != pick);
+                format!("remove({}, {})", pick.0, pick.1)
+            }
+            _ => {
+                // toggle a position derived from the case: removes it if present, adds an edge otherwise
+                let pos = ((pick.0 + 1) % r, (pick.1 + 1) % c);
+                h2.toggle(pos.0, pos.1);
+                if m2.ones.contains(&pos) {
+                    m2.ones.retain(|e| *e != pos);
+                } else {
+                    m2.ones.push(pos);
+                }
+                format!("toggle({}, {})", pos.0, pos.1)
+            }
+        };
+        let g2 = Graph::from_mat(&m2);
+        let girth2 = g2.girth();
+        let got = guarded(|| h2.girth()).map_err(|e| Fail::new("panic", format!("girth() after {what} panicked: {e}")))?;
+        ensure!(got == girth2, "girth-after-edit", "after {what} on an object whose girth had been queried ({girth:?}): girth() = {got:?}, the shortest cycle of the edited matrix has length {girth2:?}");
+        for &b in &[4usize, 6, 8, usize::MAX] {
+            let got = guarded(|| h2.girth_with_max(b)).map_err(|e| Fail::new("panic", format!("girth_with_max({b}) after {what} panicked: {e}")))?;
+            ensure!(got == bounded(girth2, b), "girth-after-edit", "after {what}: girth_with_max({b}) = {got:?}, girth of the edited matrix is {girth2:?}");
+        }
+        let v = (pick.0 + pick.1) % g2.n();
+        let node = if v < r { Node::Row(v) } else { Node::Col(v - r) };
+        let got = guarded(|| h2.girth_at_node(node)).map_err(|e| Fail::new("panic", format!("girth_at_node after {what} panicked: {e}")))?;
+        ensure!(got == g2.local_girth(v), "girth-after-edit", "after {what}: girth_at_node({node:?}) = {got:?}, the edited matrix has {:?}", g2.local_girth(v));
+        let res = guarded(|| h2.bfs(node)).map_err(|e| Fail::new("panic", format!("bfs after {what} panicked: {e}")))?;
+        let d = g2.dist(v, None);
+        ensure!((0..r).all(|i| res.row_nodes_distance[i] == d[i]) && (0..c).all(|j| res.col_nodes_distance[j] == d[r + j]), "bfs-after-edit", "after {what}: bfs({node:?}) distances differ from the shortest paths of the edited matrix");
+        p.class_if(girth2 != girth, "edit-changed-the-girth");
+        p.inner += 7;
+    }
     p.class_if(girth.is_none(), "forest");
     p.class_if(girth.is_some(), "has-cycle");
     p.class_if(off_shortest, "root-off-every-shortest-cycle");
@@ -253,7 +312,7 @@ pub fn property() -> Property {
             }),
             Box::new(Sub {
                 name: "graphs",
-                rule: "Tanner graphs up to 10 x 10 (thorough 16 x 16) by class: random forests; a cycle of length 4..10 with pendant trees grown on row and column nodes; two cycles of different length (disjoint, or joined by an edge or through trees); theta graphs (cycle + chord path); dense random; complete bipartite block with pendants; forests plus 1-3 random extra edges; rows and columns relabelled at random. For every graph: every node as root, bounds 0..=22 and usize::MAX. Oracle: plain queue BFS distances; shortest cycle through v = min over edges (v,w) of 1 + dist in G-(v,w) from w to v; girth = min over nodes; bounded variants = that value if <= bound else None. Non-trivial = cyclic graph with a root that is off every shortest cycle or on no cycle; inner = (root, bound) evaluations",
+                rule: "Tanner graphs up to 10 x 10 (thorough 16 x 16) by class: random forests; a cycle of length 4..10 with pendant trees grown on row and column nodes; two cycles of different length (disjoint, or joined by an edge or through trees); theta graphs (cycle + chord path); dense random; complete bipartite block with pendants; forests plus 1-3 random extra edges; rows and columns relabelled at random. For every graph: every node as root, bounds 0..=22 and usize::MAX. Oracle: plain queue BFS distances; shortest cycle through v = min over edges (v,w) of 1 + dist in G-(v,w) from w to v; girth = min over nodes; bounded variants = that value if <= bound else None; afterwards a copy of the queried object is edited once (clear_row / clear_col / set_row to empty / remove / toggle) and girth, bounded girth, one local girth and one BFS are compared with the oracles of the edited matrix. Non-trivial = cyclic graph with a root that is off every shortest cycle or on no cycle; inner = (root, bound) evaluations",
                 cases: |t| t.pick(200_000, 5_000_000),
                 strategy: |t| strategy(t.pick(10, 16)),
                 check,
